@@ -89,7 +89,13 @@ func (c clientCodec) Decode(response []byte, context *ClientContext) (result []i
 			tag = decoder.NextByte()
 			count := 1
 			if tag == io.TagList {
-				count = decoder.ReadInt()
+				if count = decoder.ReadInt(); count < 0 {
+					// the count comes from the wire: it indexes results below
+					if decoder.Error == nil {
+						decoder.Error = io.DecodeError("hprose/rpc/core: invalid result count")
+					}
+					count = 0
+				}
 				decoder.AddReference(nil)
 				for i := 0; i < n && i < count; i++ {
 					results[i] = decoder.Read(returnType[i])
